@@ -7,9 +7,12 @@ Model: `Obao/Model/ACL.lean` (transliteration of `parsePaths`, `NewACL`, `AllowO
 stanzas). All theorems quantify over every list of attached policies (with `nil` entries), every request path,
 operation, parameter map and wrap TTL; no size bounds.
 
-`WF` (`wfRules`) = what `parsePaths` establishes (`deny` stands alone; parameter maps have distinct keys) **plus**
-non-negative wrapping-TTL bounds, which `parsePaths` does not check. Without the last item the full statements are
-false on the current tree: `order_independent_cex`, `acl_impl_eq_spec_cex` (finding F14).
+`WF` (`wfRules`) = `deny` stands alone; parameter maps have distinct keys; wrapping-TTL bounds are not negative.
+Since the repairs of F19 (negative bounds refused) and F21 (names equal up to case refused) ALL of it is established
+by `parsePaths` (`parsed_stanza_wf`, no hypothesis), so for policies that come from the parser the refinement and
+order independence hold without side conditions (`acl_impl_eq_spec_parsed`, `order_independent_parsed`). `NewACL`
+itself is unchanged: fed a hand-built `*Policy` value with a negative bound (no parser involved) it is still order
+dependent — `order_independent_cex` / `acl_impl_eq_spec_cex` are kept as statements about such values only.
 -/
 namespace C03
 open Obao.ACL Obao.ACLSpec Obao.ACLProofs
@@ -42,26 +45,42 @@ theorem capabilities_eq_spec (ps : List (Option Policy)) (a : ACL) (path : Path)
   unfold capabilities specCapabilities
   rw [acl_refines_spec ps a h hwf]
 
-/-- what `parsePaths` accepts is well-formed, provided the wrapping-TTL bounds are not negative and no two parameter
-keys of one stanza differ only in case -/
-theorem parsed_stanza_wf (r : SrcRule) (pr : PathRule) (h : parseRule r = .ok pr)
-    (hmin : 0 ≤ r.minTTL.getD 0) (hmax : 0 ≤ r.maxTTL.getD 0)
-    (hka : ((r.allowed.getD []).map fun kv => lower kv.1).Nodup)
-    (hkd : ((r.denied.getD []).map fun kv => lower kv.1).Nodup) : wfPerms pr.perms = true :=
-  (wfPerms_iff _).mpr (parseRule_wf r pr h hmin hmax hka hkd)
+/-- **what `parsePaths` accepts is well-formed** — no side condition (F19 and F21 repaired): `deny` stands alone, the
+parameter names are distinct, the wrapping-TTL bounds are not negative -/
+theorem parsed_stanza_wf (r : SrcRule) (pr : PathRule) (h : parseRule r = .ok pr) : wfPerms pr.perms = true :=
+  (wfPerms_iff _).mpr (parseRule_wf r pr h)
 
-/-- Go ranges over the decoded HCL object (a map) in an arbitrary order while lower-casing the parameter names; the
-value list found for every name is the same for every order, provided no two names differ only in case -/
-theorem parse_params_order_independent (m m' : PMap) (hp : m.Perm m')
-    (hn : (m.map fun kv => lower kv.1).Nodup) (k : String) : (lowerKeys m).lookup k = (lowerKeys m').lookup k :=
-  lowerKeys_perm m m' hp hn k
+/-- hence every list of policies produced by the parser satisfies the hypothesis of the theorems below -/
+theorem parsed_policies_wf (ps : List (Option Policy)) (h : ∀ p, some p ∈ ps → Parsed p) :
+    wfRules (rulesOf ps) = true :=
+  wfRules_of_parsed ps h
 
-/-- without that proviso the parse depends on the iteration order (finding F16: reproduced on the real parser) -/
-theorem parse_params_order_dependent_cex :
-    ¬ ∀ (m m' : PMap) (k : String), m.Perm m' → (lowerKeys m).lookup k = (lowerKeys m').lookup k := by
-  intro h
-  have := h [("k", [.str "a"]), ("K", [.str "b"])] [("K", [.str "b"]), ("k", [.str "a"])] "k" (List.Perm.swap _ _ _)
-  exact absurd this (by decide)
+/-- **refinement for parsed policies, no side condition**: whatever policy texts are attached, `AllowOperation`
+computes the documented decision -/
+theorem acl_impl_eq_spec_parsed (ps : List (Option Policy)) (a : ACL) (req : Req) (cc : Bool)
+    (hparsed : ∀ p, some p ∈ ps → Parsed p) (h : newACL ps = .ok a) :
+    allowOperation a req cc = specAllow ps req cc :=
+  acl_refines_spec ps a h (wfRules_of_parsed ps hparsed) req cc
+
+/-- **the parse does not depend on Go's map iteration order** (full since the repair of F21). `parsePaths` ranges over
+the decoded `allowed_parameters` / `denied_parameters` objects (Go maps) while lower-casing the names. For every
+stanza and every other enumeration order of those objects the result is the same: the same error, or the same
+pattern, flags, capabilities, bounds, required list and pagination limit and the same value list for every
+parameter name (`ruleEquiv`: maps compared by lookup, as Go maps are). -/
+theorem parse_params_order_independent (r r' : SrcRule) (h : Reordered r r') :
+    exceptRel ruleEquiv (parseRule r) (parseRule r') :=
+  parseRule_reordered r r' h
+
+/-- the executable form used by the `reparse` op of the correspondence stream: no policy text has an unstable parse -/
+theorem parse_stable (rs : List SrcRule) : parseStable rs = true := parseStable_true rs
+
+/-- the F21 witness is refused now -/
+example : parseRule { path := bs "x", caps := ["update"], allowed := some [("k", [.str "a"]), ("K", [.str "b"])] }
+    = .error .dupParam := by rfl
+/-- and a negative wrapping-TTL bound (F19) as well, but not on a `deny` stanza, which ignores the fine-grained fields -/
+example : parseRule { path := bs "x", caps := ["read"], maxTTL := some (-1) } = .error .negTTL := by rfl
+example : (parseRule { path := bs "x", caps := ["deny"], maxTTL := some (-1) }).toOption.map (·.perms)
+    = some { caps := denyBits } := by decide
 
 /-! ### order independence -/
 
@@ -78,6 +97,12 @@ theorem order_independent_partial (ps ps' : List (Option Policy)) (a a' : ACL) (
   rw [acl_refines_spec ps a h hwf, acl_refines_spec ps' a' h' hwf']
   unfold specAllow
   rw [hasRoot_perm hp, specDecide_perm (rulesOf_perm hp)]
+
+/-- **order independence for parsed policies, no side condition** -/
+theorem order_independent_parsed (ps ps' : List (Option Policy)) (a a' : ACL) (req : Req) (cc : Bool)
+    (hp : ps.Perm ps') (hparsed : ∀ p, some p ∈ ps → Parsed p) (h : newACL ps = .ok a) (h' : newACL ps' = .ok a') :
+    allowOperation a req cc = allowOperation a' req cc :=
+  order_independent_partial ps ps' a a' req cc hp (wfRules_of_parsed ps hparsed) h h'
 
 /-- stronger: the decision depends only on the multiset of stanzas — also invariant under reordering the paths
 inside a policy and under moving stanzas between (non-root) policies -/
@@ -102,7 +127,8 @@ theorem capabilities_order_independent (ps ps' : List (Option Policy)) (a a' : A
   unfold capabilities
   rw [order_independent_partial ps ps' a a' _ true hp hwf h h']
 
-/-- the witness of finding F14: two policies for the same path, one with `max_wrapping_ttl = -1`, the other `= 5` -/
+/-- hand-built policy values (NOT parser output any more: `parsePaths` refuses the negative bound since the repair of
+F19) for the same path, one with `MaxWrappingTTL = -1`, the other `= 5` -/
 def ruleNeg : PathRule := { path := bs "x", isPrefix := false, hasSW := false, perms := { caps := 4, maxTTL := -1 } }
 def ruleFive : PathRule := { path := bs "x", isPrefix := false, hasSW := false, perms := { caps := 4, maxTTL := 5 } }
 def polNeg : Policy := { name := "a", paths := [ruleNeg] }
@@ -110,8 +136,10 @@ def polFive : Policy := { name := "b", paths := [ruleFive] }
 def aclNegFive : ACL := { exact := [(bs "x", { caps := 4, maxTTL := -1 })] }
 def aclFiveNeg : ACL := { exact := [(bs "x", { caps := 4, maxTTL := 5 })] }
 
-/-- **the unchanged code violates order independence** when a wrapping-TTL bound is negative: the first stanza stored
-for a pattern keeps the negative bound verbatim and it then blocks the merge of the positive bound -/
+/-- `NewACL`/`AllowOperation` on their own (their code is unchanged) are still order dependent on hand-built `*Policy`
+values with a negative wrapping-TTL bound: the first stanza stored for a pattern keeps the negative bound verbatim and
+it then blocks the merge of the positive bound. No policy text reaches this any more (`order_independent_parsed`);
+the statement is kept because callers inside the Go code base can construct `Policy` values without the parser. -/
 theorem order_independent_cex : ¬ order_independent_full := by
   intro h
   have := h [some polNeg, some polFive] [some polFive, some polNeg] aclNegFive aclFiveNeg
@@ -374,7 +402,7 @@ theorem root_reported_iff (ps : List (Option Policy)) (a : ACL) (req : Req) (h :
           · simp at hjs
   · exact absurd h (by simp)
 
-/-- the witness of finding F15: `foo = deny`, `foo/* = read` -/
+/-- the witness of finding F20: `foo = deny`, `foo/* = read` -/
 def polCaps : Policy := { name := "q", paths := [
   { path := bs "foo", isPrefix := false, hasSW := false, perms := { caps := denyBits } },
   { path := bs "foo/", isPrefix := true, hasSW := false, perms := { caps := 4 } }] }
